@@ -53,6 +53,28 @@ class Ctx:
     def note(self, msg):
         self.notes.append(msg)
 
+    def include(self, module, rules, as_rule, why):
+        """Decide rules of another property's module here as well (the same construct carries both properties).  The other
+        module is run on a child context; the instances and violations of the listed rule ids are re-recorded under
+        `as_rule` (e.g. "R1.8") with the original id kept in the instance text / key.  Known findings of the *other*
+        property are not inherited: a finding is listed per property."""
+        child = Ctx(self.pid, self.tier, self.F, self.info, self.level)
+        child.known = {}
+        module.run(child)
+        n = 0
+        for r, w, i, nt in child.instances:
+            if r in rules:
+                n += 1
+                self.instances.append((as_rule, w, f"[{r}] {i if isinstance(i, str) else json.dumps(i)}", nt))
+        for v in child.viol:
+            if v["rule"] in rules:
+                n += 1
+                self.violation(as_rule, v["where"], v["key"], f"{why}: {v['msg']}")
+        for f in child.floors:
+            if f["rule"] in rules:
+                self.floors.append(dict(f, rule=as_rule))
+        return n
+
     def obligation(self, name, discharged, detail=""):
         self.obligations.append((name, bool(discharged), detail))
 
